@@ -817,12 +817,19 @@ func computeDeadEdges(w *World, fn *ssa.Function) {
 				if g := call.Call.StaticCallee(); g != nil && w.isMain(g) && g.Blocks != nil {
 					if types.TypeString(y.Type(), nil) == "error" {
 						alwaysNil = constNilAtEveryReturn(g, y.Index)
+						// the error of a getter that fails exactly when it has nothing to return, behind the predicate that says
+						// it has (addr.IsSIPURI() ... addr.GetSIPURI())
+						if !alwaysNil && y.Index == 1 && g.Signature.Results().Len() == 2 && errorOnlyWithNilResult(g) && w.correlatedGuard(fn, ifi, call, g) {
+							alwaysNil = true
+						}
 					} else {
 						switch w.nilStatus(g, y.Index, map[string]bool{}) {
 						case nilNever:
 							neverNil = true
 						case nilOnlyWithError:
 							if errIndex(call) >= 0 && w.requires(fn, ifi, errNil(call), true) {
+								neverNil = true
+							} else if w.correlatedGuard(fn, ifi, call, g) {
 								neverNil = true
 							}
 						}
@@ -948,4 +955,19 @@ func (w *World) containerNeverNil(ref string) bool {
 	}
 	containerMemo[ref] = good && n > 0
 	return containerMemo[ref]
+}
+
+// errorOnlyWithNilResult: every return of g (two results: value, error) has a nil constant error, or a nil constant value.
+func errorOnlyWithNilResult(g *ssa.Function) bool {
+	n := 0
+	for _, r := range returnsUnder(g, nil) {
+		if len(r.Results) != 2 {
+			return false
+		}
+		n++
+		if !isNilConst(r.Results[1]) && !isNilConst(r.Results[0]) {
+			return false
+		}
+	}
+	return n > 0
 }
